@@ -259,6 +259,16 @@ def run(ctx):
                               {"stream": "witness", "program": "harness/wit_isres.c", "lean_witness": "Nlopt.C06Isres.isres_best_feasible_full_false"})
         else:
             ctx.broke("harness wit_isres.c does not build", log)
+        exe, ok, log = build_harness("wit_slsqp", bdir)
+        if ok:
+            rc, out = sh([exe])
+            ctx.cov["slsqp_unequal_tolerance_witness"] = out.strip()[-200:]
+            if rc == 1:
+                ctx.violation({"alg": "NLOPT_LD_SLSQP", "cause": "unequal tolerances: infeasible incumbent shadows feasible points"},
+                              "NLOPT_LD_SLSQP returned an infeasible point although feasible points were evaluated: " + out.strip()[-160:],
+                              {"stream": "witness", "program": "harness/wit_slsqp.c", "lean_witness": "Nlopt.C06.slsqp_best_feasible_full_false"})
+        else:
+            ctx.broke("harness wit_slsqp.c does not build", log)
         nfe = sum(1 for _, r, ri in batch if ri is not None and ri.ret is not None and ri.ret > 0)
         ctx.cov["successful_constrained_runs"] = nfe
         ctx.sample({"spec": batch[0][1].spec})
